@@ -227,6 +227,11 @@ fn exec(ctx: &mut Ctx, ev: &Ev, rng: &mut Rng) {
                     if n <= 12 {
                         let ok = (0..1u64 << n).all(|a| c.value(a as usize) == (a == (m & mask)));
                         ctx.check("minterm", ok, ev, "minterm-value", || format!("minterm({}, {:#x}) is not satisfied exactly by that assignment", n, m));
+                    } else {
+                        // the assignment itself and its one-bit neighbours inside the n variables
+                        let target = m & mask;
+                        let ok = c.value(target as usize) && (0..n).all(|v| !c.value((target ^ (1u64 << v)) as usize));
+                        ctx.check("minterm", ok, ev, "minterm-value", || format!("minterm({}, {:#x}) is not satisfied exactly by that assignment (checked on it and its {} neighbours)", n, m, n));
                     }
                 }
                 Outcome::Panicked(msg) => ctx.violate("no-panic", ev, "minterm", format!("minterm({}, {:#x}) panicked: {}", n, m, msg)),
@@ -398,7 +403,7 @@ fn main() {
                     let c4 = wide_cube(&mut rng, 3, true);
                     exec(ctx, &ev_cubes("chain", 32, &[a, b, c3, c4]), &mut rng);
                 }
-                for nn in [6usize, 7, 12, 16, 20, 31] {
+                for nn in [6usize, 7, 12, 16, 20, 31, 32] {
                     for _ in 0..20 {
                         exec(ctx, &Ev::new("minterm", "Cube", nn).int64(rng.next_u64() & ((1u64 << nn) - 1)), &mut rng);
                     }
@@ -428,6 +433,7 @@ fn main() {
         required.push(format!("minterm|n={}", n));
     }
     required.push("minterm|n=31".into());
+    required.push("minterm|n=32".into());
     for n in 0..=3 {
         required.push(format!("implies_lut|n={}", n));
     }
